@@ -1,6 +1,6 @@
 """C04 — certificates accepted exactly when backed by a quorum. Certs.tla states validity; MC_Certs enumerates, per committee, every
 signer subset x chain binding x bitmap length x signature corruption (commit certificates), every two-group split x corruption
-and every assignment of validators to subsets of three reports (timeout certificates; overlapping, non-adjacent groups) and every sequence of <=3 incremental adds, each with the SPEC's verdict; certs_replay materialises each case
+and every assignment of validators to subsets of three reports (timeout certificates; overlapping, non-adjacent groups) and every sequence of <=3 incremental adds to a commit certificate and <=2..3 adds to a timeout certificate (then completed by valid votes), each with the SPEC's verdict; certs_replay materialises each case
 with real BLS keys/signatures and compares accept/reject of the real verify()/add() (T3)."""
 import os
 import time
@@ -34,8 +34,8 @@ def _gen(comm, mode):
 
 def _plan(tier):
     if tier == "quick":
-        return [("W4", "cqc"), ("W4", "tqc"), ("W4", "tqc3"), ("U4", "tqc3"), ("W4", "add2"), ("U6", "cqc"), ("S2", "cqc"), ("S2", "tqc"), ("U4", "add3")]
-    return [(c, m) for c in ["W4", "U4", "U6", "S2", "W5b"] for m in ["cqc", "tqc", "add3"] if not (c in ("U6", "W5b") and m == "add3")] + [("U6", "add2"), ("W4", "tqc3"), ("U4", "tqc3"), ("S2", "tqc3")]
+        return [("W4", "cqc"), ("W4", "tqc"), ("W4", "tqc3"), ("U4", "tqc3"), ("W4", "add2"), ("W4", "tadd2"), ("U4", "tadd2"), ("U6", "cqc"), ("S2", "cqc"), ("S2", "tqc"), ("U4", "add3")]
+    return [(c, m) for c in ["W4", "U4", "U6", "S2", "W5b"] for m in ["cqc", "tqc", "add3"] if not (c in ("U6", "W5b") and m == "add3")] + [("U6", "add2"), ("W4", "tqc3"), ("U4", "tqc3"), ("S2", "tqc3"), ("W4", "tadd3"), ("U4", "tadd3"), ("U6", "tadd2")]
 
 
 def run(tier, seed):
@@ -45,6 +45,8 @@ def run(tier, seed):
     total, distinct, fails, samples, tables = 0, 0, [], [], []
     for comm, mode in _plan(tier):
         cases = _gen(comm, mode)
+        if tier == "thorough" and mode == "tadd3":
+            cases = [c for i, c in enumerate(cases) if (i + seed) % 3 == 0]
         if tier == "quick" and mode == "add3":
             cases = [c for i, c in enumerate(cases) if (i + seed) % 4 == 0]
         cp = os.path.join(d, f"cases_{comm}_{mode}.ndjson")
@@ -62,6 +64,8 @@ def run(tier, seed):
         samples += rep["samples"][:1]
         tables.append({"committee": comm, "table": mode, "cases": len(cases), "mismatches": len(rep["failures"]),
                        "not_materialisable": rep["counters"].get("tqc_case_not_materialisable", 0)})
+        if rep["counters"].get("drift_tadd_groups"):
+            log(f"NOTE drift component=timeout_qc_add: {rep['counters']['drift_tadd_groups']} case(s) keep a different number of message groups than Certs.tla after a refused vote (verdict = final verify)")
         log(f"[C04] {comm}/{mode}: {len(cases)} cases, {len(rep['failures'])} mismatches")
     cov = {
         "states": distinct, "transitions": total, "traces_validated_against_impl": distinct,
